@@ -926,4 +926,239 @@ Section NumVisit.
       + apply (tracks_ext Kinf _ I I' (additive_Kin es) H3 HL Hmem).
       + apply (tracks_ext Koutf _ I I' (additive_Kout es) H4 HL Hmem).
   Qed.
+
+  (* ---- the candidate map against the (virtual) inner partition without u ---- *)
+  Hypothesis attr_disj : forall u v x, In u (seq 0 n) -> In v (seq 0 n) ->
+    In x (attr_of g u) -> In x (attr_of g v) -> u = v.
+  Notation SI := (SInvS (seq 0 n) (attr_of g)).
+
+  Lemma memb_Pc : forall P I n2c u c l, SInv (seq 0 n) (attr_of g) P I n2c -> nth_error I c = Some l ->
+    forall v, membN v (set_remove u l) = Pc n2c u c v.
+  Proof.
+    intros P I n2c u c l HS Hc v. apply bool_eq_iff. rewrite memb_nat_In, In_set_remove.
+    unfold Pc, com_is. rewrite andb_true_iff, negb_true_iff, Nat.eqb_neq. split.
+    - intros [Hv Hne]. split; [exact Hne|].
+      assert (E : lookup Nat.eqb v n2c = Some c) by (apply (si_L1 _ _ _ _ _ HS); exists l; split; assumption).
+      rewrite E. apply Nat.eqb_refl.
+    - intros [Hne Hc']. split; [|exact Hne]. destruct (lookup Nat.eqb v n2c) as [c'|] eqn:E; [|discriminate].
+      apply Nat.eqb_eq in Hc'. subst c'. apply (si_L1 _ _ _ _ _ HS) in E. destruct E as [l' [Hl' Hin]].
+      rewrite Hc in Hl'. inversion Hl'. subst. exact Hin.
+  Qed.
+
+  Lemma candidates_spec : forall P I n2c u own iO I1,
+    SInv (seq 0 n) (attr_of g) P I n2c -> In u (seq 0 n) ->
+    lookup Nat.eqb u n2c = Some own -> nth_error I own = Some iO ->
+    set_nth own (set_remove u iO) I = Some I1 ->
+    exists w0 w2c,
+      get_neighbor_weights g u (successors g) n2c = Ok w0 /\
+      (if directed (sp g) then add_predecessor_weights g u (predecessors g) n2c w0 else Ok w0) = Ok w2c /\
+      NoDup (keys w2c) /\
+      (forall c, In c (keys w2c) -> exists l1, nth_error I1 c = Some l1) /\
+      (forall c l1, nth_error I1 c = Some l1 -> ~ In u l1 /\ valQ c w2c == btw u l1).
+  Proof.
+    intros P I n2c u own iO I1 HS Hu Hown HO HI1.
+    assert (NI1 : forall j, nth_error I1 j = if Nat.eqb j own then Some (set_remove u iO) else nth_error I j)
+      by (intro j; eapply set_nth_nth; exact HI1).
+    destruct (w2c_spec g W Hmulti Hreal u n2c) as [w0 [w2c [Hw0 [Hw2 [Hnd [Hval Hrange]]]]]].
+    { apply Hnames. exact Hu. }
+    { intros v Hv. apply (si_dom _ _ _ _ _ HS). apply Hnames. exact Hv. }
+    exists w0, w2c. split; [exact Hw0|]. split; [exact Hw2|]. split; [exact Hnd|]. split.
+    - intros c Hc. destruct (Hrange c Hc) as [v [_ Hl]]. apply (si_L1 _ _ _ _ _ HS) in Hl. destruct Hl as [l [Hl _]].
+      rewrite NI1. destruct (Nat.eqb c own); eauto.
+    - intros c l1 Hc. rewrite NI1 in Hc. destruct (Nat.eqb c own) eqn:Eco.
+      + apply Nat.eqb_eq in Eco. subst c. inversion Hc. subst l1. split; [rewrite In_set_remove; intuition|].
+        rewrite (Hval own). symmetry. rewrite <- (between_q g u n2c own (set_remove u (set_remove u iO))).
+        * apply between_ext. intro x. rewrite !In_set_remove. tauto.
+        * intro v. rewrite <- (memb_Pc P I n2c u own iO HS HO v). apply memb_ext_of_In. intro x. rewrite !In_set_remove. tauto.
+      + apply Nat.eqb_neq in Eco.
+        assert (Hnu : ~ In u l1).
+        { intro Hin. assert (E : lookup Nat.eqb u n2c = Some c) by (apply (si_L1 _ _ _ _ _ HS); exists l1; split; assumption).
+          congruence. }
+        split; [exact Hnu|]. rewrite (Hval c). symmetry. rewrite <- (between_q g u n2c c (set_remove u l1)).
+        * apply between_ext. intro x. rewrite In_set_remove. split; [intro H; split; [exact H | intro E; subst; contradiction] | tauto].
+        * apply (memb_Pc P I n2c u c l1 HS Hc).
+  Qed.
+
+  Lemma in_keys_lookup : forall (w2c : list (nat * Q)) c wt, NoDup (keys w2c) -> In (c, wt) w2c -> valQ c w2c = wt.
+  Proof. intros w2c c wt Hnd Hin. unfold valQ. rewrite (In_lookup Nat.eqb Nat.eqb_eq c wt w2c Hnd Hin). reflexivity. Qed.
+
+  (* the gain the model computes for a candidate is the gain on the edge multiset *)
+  Lemma gain_sem : forall I1 di1 u w2c c wt l1 gq,
+    NInv I1 di1 -> NoDup (keys w2c) -> In (c, wt) w2c -> nth_error I1 c = Some l1 -> valQ c w2c == btw u l1 ->
+    (directed (sp g) = false -> degree di1 == Kf [u]) ->
+    (directed (sp g) = true -> in_degree di1 == Kinf [u] /\ out_degree di1 == Koutf [u]) ->
+    gain_of di1 m res (directed (sp g)) c wt = Ok (Some gq) ->
+    ~ m == 0 /\ gq == (if directed (sp g) then gD u l1 else gU u l1).
+  Proof.
+    intros I1 di1 u w2c c wt l1 gq [_ HU HD] Hnd Hin Hc Hv Hdu Hdd Hg.
+    rewrite (in_keys_lookup w2c c wt Hnd Hin) in Hv.
+    destruct (directed (sp g)) eqn:Hd.
+    - destruct (HD eq_refl) as [_ [_ [Tin Tout]]]. destruct (Hdd eq_refl) as [Hi Ho].
+      apply gain_of_directed_inv in Hg. destruct Hg as [si [so [Esi [Eso [Hm0 Hgq]]]]].
+      destruct Tin as [_ Tin]. destruct Tout as [_ Tout].
+      pose proof (Tin c si l1 Esi Hc) as Hsi. pose proof (Tout c so l1 Eso Hc) as Hso.
+      split; [exact Hm0|]. unfold gD. rewrite Hgq, Hv, Hsi, Hso, Hi, Ho. reflexivity.
+    - destruct (HU eq_refl) as [_ [_ Tst]]. specialize (Hdu eq_refl).
+      apply gain_of_undirected_inv in Hg. destruct Hg as [st [Est [Hm0 Hgq]]].
+      pose proof (Tst c st l1 Est Hc) as Hst.
+      split; [exact Hm0|]. unfold gU. rewrite Hgq, Hv, Hst, Hdu. reflexivity.
+  Qed.
+
+  Lemma gain_exists : forall I1 di1 c wt l1, NInv I1 di1 -> nth_error I1 c = Some l1 -> ~ m == 0 ->
+    exists gq, gain_of di1 m res (directed (sp g)) c wt = Ok (Some gq).
+  Proof.
+    intros I1 di1 c wt l1 [_ HU HD] Hc Hm0. destruct (directed (sp g)) eqn:Hd.
+    - destruct (HD eq_refl) as [_ [_ [Tin Tout]]].
+      destruct (tracks_get _ _ _ _ _ Tin Hc) as [si [Esi _]]. destruct (tracks_get _ _ _ _ _ Tout Hc) as [so [Eso _]].
+      destruct (gain_of_directed_some di1 m res c wt si so Esi Eso Hm0) as [gq [Hg _]]. eauto.
+    - destruct (HU eq_refl) as [_ Tst]. destruct (tracks_get _ _ _ _ _ Tst Hc) as [st [Est _]].
+      destruct (gain_of_undirected_some di1 m res c wt st Est Hm0) as [gq [Hg _]]. eauto.
+  Qed.
+
+  Lemma gain_total_cands : forall I1 di1 (w2c : list (nat * Q)),
+    NInv I1 di1 -> (forall c, In c (keys w2c) -> exists l1, nth_error I1 c = Some l1) ->
+    forall c w, In (c, w) w2c -> exists r, gain_of di1 m res (directed (sp g)) c w = Ok r.
+  Proof.
+    intros I1 di1 w2c [_ HU HD] Hrange c w Hin.
+    assert (Hk : In c (keys w2c)) by (unfold keys; apply in_map_iff; exists (c, w); split; [reflexivity | exact Hin]).
+    destruct (Hrange c Hk) as [l1 Hc]. apply gain_of_total.
+    - intro Hd. destruct (HU Hd) as [_ Tst]. destruct (tracks_get _ _ _ _ _ Tst Hc) as [st [Est _]]. congruence.
+    - intro Hd. destruct (HD Hd) as [_ [_ [Tin Tout]]].
+      destruct (tracks_get _ _ _ _ _ Tin Hc) as [si [Esi _]]. destruct (tracks_get _ _ _ _ _ Tout Hc) as [so [Eso _]].
+      split; congruence.
+  Qed.
+
+  (* the decision: a move happens only towards a community with a strictly larger gain *)
+  Lemma decision : forall I1 di1 u w2c own bc tie C D,
+    NInv I1 di1 -> NoDup (keys w2c) ->
+    (forall c l1, nth_error I1 c = Some l1 -> ~ In u l1 /\ valQ c w2c == btw u l1) ->
+    (directed (sp g) = false -> degree di1 == Kf [u]) ->
+    (directed (sp g) = true -> in_degree di1 == Kinf [u] /\ out_degree di1 == Koutf [u]) ->
+    update_best_com own w2c di1 m res (directed (sp g)) = Ok (bc, tie) -> bc <> own ->
+    nth_error I1 bc = Some C -> nth_error I1 own = Some D ->
+    0 < m /\ (if directed (sp g) then gD u D < gD u C else gU u D < gU u C).
+  Proof.
+    intros I1 di1 u w2c own bc tie C D HN Hnd Hval Hdu Hdd Hupd Hne HC HD.
+    destruct (move_only_if_strictly_better di1 m res (directed (sp g)) own w2c bc tie Hnd Hupd Hne)
+      as [wt [gq [Hin [Hg [Hg0 [_ Hown]]]]]].
+    destruct (Hval bc C HC) as [_ HvC]. destruct (Hval own D HD) as [_ HvD].
+    destruct (gain_sem I1 di1 u w2c bc wt C gq HN Hnd Hin HC HvC Hdu Hdd Hg) as [Hm0 HgC].
+    assert (Hmpos : 0 < m) by (destruct (Qlt_le_dec 0 m) as [H|H]; [exact H | exfalso; apply Hm0; lra]).
+    split; [exact Hmpos|].
+    destruct (in_dec Nat.eq_dec own (keys w2c)) as [Hmem|Hnmem].
+    - unfold keys in Hmem. apply in_map_iff in Hmem. destruct Hmem as [[o wo] [Ho Hino]]. cbn [fst] in Ho. subst o.
+      destruct (gain_exists I1 di1 own wo D HN HD Hm0) as [go Hgo].
+      pose proof (Hown wo go Hino Hgo) as Hlt.
+      destruct (gain_sem I1 di1 u w2c own wo D go HN Hnd Hino HD HvD Hdu Hdd Hgo) as [_ HgD].
+      destruct (directed (sp g)); rewrite <- HgC, <- HgD; exact Hlt.
+    - assert (Hz : btw u D == 0).
+      { rewrite <- HvD. unfold valQ. apply (lookup_None_keys Nat.eqb Nat.eqb_eq) in Hnmem. rewrite Hnmem. reflexivity. }
+      destruct (directed (sp g)).
+      + rewrite <- HgC. unfold gD. rewrite Hz.
+        pose proof (Kout_nonneg [u]). pose proof (Kin_nonneg [u]). pose proof (Kout_nonneg D). pose proof (Kin_nonneg D).
+        assert (Hdiv : 0 <= res * (Koutf [u] * Kinf D + Kinf [u] * Koutf D) / m).
+        { apply Qle_shift_div_l; [exact Hmpos|]. rewrite Qmult_0_l. apply Qmult_le_0_compat; [exact Hres|].
+          pose proof (Qmult_le_0_compat _ _ H H2). pose proof (Qmult_le_0_compat _ _ H0 H1). lra. }
+        lra.
+      + rewrite <- HgC. unfold gU. rewrite Hz.
+        pose proof (K_nonneg [u]). pose proof (K_nonneg D).
+        assert (Hdiv : 0 <= res * (Kf D * Kf [u]) / m).
+        { apply Qle_shift_div_l; [exact Hmpos|]. rewrite Qmult_0_l. apply Qmult_le_0_compat; [exact Hres|].
+          apply Qmult_le_0_compat; assumption. }
+        lra.
+  Qed.
+
+  Notation dirg := (directed (sp g)).
+
+  (* ---- one visit: never panics, keeps L1-L3, and a move strictly increases the potential ---- *)
+  Lemma visit_num : forall s u, In u (seq 0 n) -> SI s -> NInv (ls_inner s) (ls_deg s) ->
+    exists s', visit g m res (successors g) (predecessors g) s u = Ok s' /\
+      SI s' /\ NInv (ls_inner s') (ls_deg s') /\
+      ((ls_moves s' = ls_moves s /\ ls_inner s' = ls_inner s /\ ls_node2com s' = ls_node2com s /\
+        ls_improved s' = ls_improved s) \/
+       (ls_moves s' = S (ls_moves s) /\ ls_improved s' = true /\ 0 < m /\
+        Phi dirg (ls_inner s) < Phi dirg (ls_inner s'))).
+  Proof.
+    intros s u Hu HS HN. pose proof HS as [SLen SDom SL1 SNd SL2].
+    destruct (lookup Nat.eqb u (ls_node2com s)) as [own|] eqn:Hown;
+      [|exfalso; apply (proj1 (SDom u) Hu); exact Hown].
+    destruct (proj1 (SL1 u own) Hown) as [iO [HO HuO]].
+    assert (Hlt : (own < length (ls_inner s))%nat) by (apply nth_error_Some; congruence).
+    destruct (set_nth_Some own (set_remove u iO) (ls_inner s) Hlt) as [I1 HI1].
+    assert (NI1 : forall j, nth_error I1 j = if Nat.eqb j own then Some (set_remove u iO) else nth_error (ls_inner s) j)
+      by (intro j; eapply set_nth_nth; exact HI1).
+    assert (LI1 : length I1 = length (ls_inner s)) by (eapply set_nth_length; exact HI1).
+    destruct (candidates_spec _ _ _ u own iO I1 HS Hu Hown HO HI1) as [w0 [w2c [Hw0 [Hw2 [Hnd [Hrange Hval]]]]]].
+    assert (Hun : In u nms) by (apply Hnames; exact Hu).
+    destruct (subtract_ok _ _ own u iO I1 HN HO HuO Hun HI1) as [di1 [Hsub [HN1 [Hdu Hdd]]]].
+    destruct (update_best_com_total own w2c di1 m res dirg (gain_total_cands I1 di1 w2c HN1 Hrange))
+      as [bc [tie [Hupd Hbc]]].
+    assert (HD1 : nth_error I1 own = Some (set_remove u iO)) by (rewrite NI1, Nat.eqb_refl; reflexivity).
+    assert (HbcR : exists C, nth_error I1 bc = Some C).
+    { destruct Hbc as [Hbc|Hbc]; [subst bc; eauto | apply Hrange; exact Hbc]. }
+    destruct HbcR as [C HC]. destruct (Hval bc C HC) as [HuC _].
+    assert (Hltb : (bc < length I1)%nat) by (apply nth_error_Some; congruence).
+    destruct (set_nth_Some bc (set_add Nat.eqb u C) I1 Hltb) as [I2 HI2].
+    assert (NI2 : forall j, nth_error I2 j = if Nat.eqb j bc then Some (set_add Nat.eqb u C) else nth_error I1 j)
+      by (intro j; eapply set_nth_nth; exact HI2).
+    assert (LI2 : length I2 = length I1) by (eapply set_nth_length; exact HI2).
+    destruct (add_ok I1 di1 bc u C I2 HN1 HC HuC HI2 Hdu Hdd) as [di2 [Hadd HN2]].
+    unfold visit. rewrite Hown. cbn [unwrap_at bind]. rewrite Hw0. cbn [bind]. rewrite Hw2. cbn [bind].
+    rewrite Hsub. cbn [bind]. rewrite Hupd. cbn [bind]. rewrite Hadd. cbn [bind].
+    destruct (Nat.eqb bc own) eqn:Ebo.
+    - (* the node stays *)
+      apply Nat.eqb_eq in Ebo. subst bc. eexists. split; [reflexivity|]. cbn [ls_partition ls_inner ls_node2com ls_deg ls_moves ls_improved].
+      split; [exact HS|]. split; [|left; repeat split; reflexivity].
+      apply (NInv_ext I2 (ls_inner s) di2 HN2); [lia|].
+      intros c l l' Hc Hc' x. rewrite NI2, NI1 in Hc. destruct (Nat.eqb c own) eqn:Eco.
+      + apply Nat.eqb_eq in Eco. subst c. rewrite HO in Hc'. inversion Hc'. subst l'.
+        rewrite HD1 in HC. inversion HC. subst C. inversion Hc. subst l.
+        rewrite In_set_add_nat, In_set_remove. destruct (Nat.eq_dec x u); [subst; tauto | tauto].
+      + rewrite Hc in Hc'. inversion Hc'. reflexivity.
+    - (* the node moves *)
+      apply Nat.eqb_neq in Ebo.
+      assert (HCs : nth_error (ls_inner s) bc = Some C).
+      { rewrite NI1 in HC. rewrite (proj2 (Nat.eqb_neq bc own) Ebo) in HC. exact HC. }
+      rewrite (get_node_spec Nat.eqb Nat.ltb Nat.eqb_eq g u W).
+      destruct (find (fun nd : lnode => Nat.eqb (nname nd) u) (nodes_vec g)) as [nd'|] eqn:Efind.
+      2:{ exfalso. pose proof (name_exists g u Hun) as Hex. apply existsb_exists in Hex. destruct Hex as [x [Hx Hxe]].
+          pose proof (find_none _ _ Efind x Hx) as Hn. cbn beta in Hn. congruence. }
+      cbn [unwrap_res unwrap_at bind].
+      assert (Hcom : match nattr nd' with Some a => a | None => [u] end = attr_of g u).
+      { unfold attr_of. rewrite (get_node_spec Nat.eqb Nat.ltb Nat.eqb_eq g u W), Efind. reflexivity. }
+      rewrite Hcom.
+      assert (HpO : exists pO, nth_error (ls_partition s) own = Some pO).
+      { destruct (nth_error (ls_partition s) own) eqn:E; [eauto|]. apply nth_error_None in E. lia. }
+      destruct HpO as [pO HpO].
+      destruct (upd_nth_some "louvain.rs:_partition index" own (fun c => set_diff c (attr_of g u)) (ls_partition s) pO HpO)
+        as [p1 Hp1].
+      rewrite Hp1. cbn [bind].
+      pose proof (set_nth_upd_nth "louvain.rs:inner_partition index" own (set_remove u) (ls_inner s) I1 iO HO HI1) as Hi1.
+      rewrite Hi1. cbn [bind].
+      destruct (upd_nth_ok _ _ _ _ _ Hp1) as [_ [_ [Lp1 _]]].
+      assert (HpB : exists pB, nth_error p1 bc = Some pB).
+      { destruct (nth_error p1 bc) eqn:E; [eauto|]. apply nth_error_None in E. lia. }
+      destruct HpB as [pB HpB].
+      destruct (upd_nth_some "louvain.rs:_partition index" bc (fun c => set_union c (attr_of g u)) p1 pB HpB) as [p2 Hp2].
+      rewrite Hp2. cbn [bind].
+      pose proof (set_nth_upd_nth "louvain.rs:inner_partition index" bc (set_add Nat.eqb u) I1 I2 C HC HI2) as Hi2.
+      rewrite Hi2. cbn [bind].
+      eexists. split; [reflexivity|]. cbn [ls_partition ls_inner ls_node2com ls_deg ls_moves ls_improved].
+      split; [|split; [exact HN2|]].
+      + unfold SInvS. cbn [ls_partition ls_inner ls_node2com].
+        eapply (move_SInv (seq 0 n) (attr_of g) attr_disj); eassumption.
+      + right. split; [reflexivity|]. split; [reflexivity|].
+        destruct (decision I1 di1 u w2c own bc tie C (set_remove u iO) HN1 Hnd Hval Hdu Hdd Hupd Ebo HC HD1) as [Hmpos Hdec].
+        split; [exact Hmpos|].
+        assert (Hm0 : ~ m == 0) by (intro E; rewrite E in Hmpos; discriminate).
+        assert (HuD : ~ In u (set_remove u iO)) by (rewrite In_set_remove; intuition).
+        pose proof (Phi_move dirg (ls_inner s) I1 I2 own bc iO C u Ebo HO HCs HuO HuC NI1 NI2) as HPhi.
+        destruct dirg.
+        * rewrite (move_terms_d u C (set_remove u iO) Hm0 HuC HuD) in HPhi.
+          assert (Hpos : 0 < (gD u C - gD u (set_remove u iO)) / m) by (apply Qlt_shift_div_l; lra).
+          lra.
+        * rewrite (move_terms_u u C (set_remove u iO) Hm0 HuC HuD) in HPhi.
+          assert (Hpos : 0 < (gU u C - gU u (set_remove u iO)) / (2 * m)) by (apply Qlt_shift_div_l; lra).
+          lra.
+  Qed.
 End NumVisit.
